@@ -733,11 +733,23 @@ func genFaults(r *rand.Rand, st *world.State, g string) []world.Fault {
 		case 7:
 			fs = append(fs, world.Fault{Op: "terminate", T: n})
 		case 8:
-			if r.Intn(2) == 0 && g == st.Gorder[len(st.Gorder)-1] { // the cloud takes one tick to answer (only for the group scanned last)
+			if r.Intn(2) == 0 && g == st.Gorder[len(st.Gorder)-1] && !gs.Cfg.Fleet { // the cloud takes one tick to answer (only for the group scanned last)
 				fs = append(fs, world.Fault{Op: "slow", T: g})
 			} else {
 				fs = append(fs, world.Fault{Op: "set_desired", T: g})
 			}
+		}
+	}
+	// a process that dies mid-scan is replayed call by call (CrashCut): keep its scan free of faults with side effects of their own
+	for _, f := range fs {
+		if f.Op == "crash" {
+			var keep []world.Fault
+			for _, x := range fs {
+				if x.Op != "conflict" && x.Op != "slow" {
+					keep = append(keep, x)
+				}
+			}
+			return keep
 		}
 	}
 	return fs
